@@ -154,6 +154,7 @@ def run_case(case, w):
         # successive contents read through the DEFAULT forms (nowrap=True): counters only grow, interfaces come and go; with no
         # wrap anywhere the answers are the plain kernel values / their sums at every step
         psutil.net_io_counters.cache_clear()
+        held = []
         for step, (names, pernic_first) in enumerate(case[1]):
             ifs = [(nm, [PRIMES[j] * (NAMES.index(nm) + 1) * 100 + j + 1000 * step for j in range(16)]) for nm in names]
             w.set_file("/proc/net/dev", net_file(ifs))
@@ -161,11 +162,16 @@ def run_case(case, w):
             tot = {f: sum(e[f] for e in exp.values()) for f in NET_FIELDS} if ifs else None
             for form in ((True, False) if pernic_first else (False,)):
                 got = outcome(psutil.net_io_counters, pernic=form)
+                if got[0] == "ok" and form:
+                    held.append((step, got[1], freeze(got[1])))
                 want = exp if form else tot
                 have = got[1] if got[0] != "ok" else (recs(got[1], NET_FIELDS) if form else (None if got[1] is None else rec(got[1], NET_FIELDS)))
                 if got[0] != "ok" or have != want:
                     bad.append(("net:sequence:%s" % ("pernic" if form else "total"),
                                 "step %d of %r: got %r expected %r" % (step, case[1], freeze(got), want)))
+        for step, obj, was in held:
+            if freeze(obj) != was:
+                bad.append(("net:earlier-result-rewritten-by-a-later-call", "the dict returned at step %d of %r was %r and is now %r" % (step, case[1], was, freeze(obj))))
         psutil.net_io_counters.cache_clear()
     elif k == "net-many":
         # scale: a table much longer than any read buffer (a container host with hundreds of veth pairs)
@@ -206,12 +212,16 @@ def run_case(case, w):
         # interfaces stays the same), then it is created again: a re-created interface reports exactly the kernel's counters
         psutil.net_io_counters.cache_clear()
         a, b = case[1], case[2]
-        steps = [[("lo", 50), (a, 1000)], [("lo", 60), (a, 350)], [("lo", 70), (b, 10)], [("lo", 80), (a, 350)], [("lo", 90), (a, 360)]]
+        steps = [[("lo", 50), (a, 1000)], [("lo", 60), (a, 350)], [("lo", 70), (b, 10)], [("lo", 80), (a, 350 if len(b) % 2 else 100)],
+                 [("lo", 90), (a, 360)]]
+        held = []
         for step, ifs_ in enumerate(steps):
             ifs = [(nm, [v + j for j in range(16)]) for nm, v in ifs_]
             w.set_file("/proc/net/dev", net_file(ifs))
             got = outcome(psutil.net_io_counters, pernic=True)
             tot = outcome(psutil.net_io_counters)
+            if got[0] == "ok":
+                held.append((step, got[1], freeze(got[1])))
             if step >= 2:
                 exp = {name: {f: cols[NET_MAP[f]] for f in NET_FIELDS} for name, cols in ifs}
                 want_tot = {f: sum(e[f] for e in exp.values()) for f in NET_FIELDS}
@@ -219,6 +229,9 @@ def run_case(case, w):
                     bad.append(("net:recreated-interface:pernic", "step %d of swap %s->%s->%s: got %r expected %r" % (step, a, b, a, freeze(got), exp)))
                 if tot[0] != "ok" or rec(tot[1], NET_FIELDS) != want_tot:
                     bad.append(("net:recreated-interface:total", "step %d: got %r expected %r" % (step, freeze(tot), want_tot)))
+        for step, obj, was in held:
+            if freeze(obj) != was:
+                bad.append(("net:earlier-result-rewritten-by-a-later-call", "the dict returned at step %d was %r and is now %r" % (step, was, freeze(obj))))
         psutil.net_io_counters.cache_clear()
     elif k == "disk-useq":
         # same for disk_io_counters(): whole disks appear / disappear between default-form calls
@@ -227,6 +240,7 @@ def run_case(case, w):
             w.remove("/sys/block/" + d)
         for nm in ("sda", "sdb", "sdc"):
             w.mkdir("/sys/block/" + nm)
+        held = []
         for step, names in enumerate(case[1]):
             lines, exp = [], {}
             for nm in names:
@@ -240,6 +254,14 @@ def run_case(case, w):
             have = got[1] if got[0] != "ok" else (None if got[1] is None else rec(got[1], DISK_FIELDS))
             if got[0] != "ok" or have != tot:
                 bad.append(("disk:sequence:total", "step %d of %r: got %r expected %r" % (step, case[1], freeze(got), tot)))
+            per = outcome(psutil.disk_io_counters, perdisk=True)
+            if per[0] != "ok" or recs(per[1], DISK_FIELDS) != exp:
+                bad.append(("disk:sequence:perdisk", "step %d of %r: got %r expected %r" % (step, case[1], freeze(per), exp)))
+            else:
+                held.append((step, per[1], freeze(per[1])))
+        for step, obj, was in held:
+            if freeze(obj) != was:
+                bad.append(("disk:earlier-result-rewritten-by-a-later-call", "the dict returned at step %d of %r was %r and is now %r" % (step, case[1], was, freeze(obj))))
         psutil.disk_io_counters.cache_clear()
     elif k == "usage":
         blocks, bfree, bavail, frsize, bsize = case[1:]
